@@ -594,7 +594,26 @@ func driveJournal(seed uint64, n int, size int, em *Emitter, exhaustive bool) {
 	for i := 0; i < n; i++ {
 		em.Reset(fmt.Sprintf("journal-prog-%d-%d", seed, i))
 		c := genJournalProgram(r.Fork())
-		runJCase(c, em, "C03,C09,C10,C12", tracerQueriesFor(c))
+		ce0, first := captureEmitter()
+		runJCase(c, ce0, "C03,C09,C10,C12,C16", tracerQueriesFor(c))
+		for _, l := range *first {
+			em.Op(l[0], l[1], l[2])
+		}
+		em.Merge(ce0)
+		// C16 specification: the same transaction on equal pre-state in fresh EVMs gives identical lines
+		// (results, call tree, journal) - also after unrelated executions in this process
+		verdict := "same"
+		for rep := 0; rep < 2 && verdict == "same"; rep++ {
+			ce, buf := captureEmitter()
+			runJCase(c, ce, "C16", tracerQueriesFor(c))
+			for k := range *buf {
+				if k >= len(*first) || (*buf)[k][1] != (*first)[k][1] || (*buf)[k][2] != (*first)[k][2] {
+					verdict = "differs:" + strings.ReplaceAll((*buf)[k][1], " ", "_")
+					break
+				}
+			}
+		}
+		em.Op("C16", "S det", verdict)
 	}
 	// (B) value journal vs Solidity packed layout
 	forks := forkNames
